@@ -13,7 +13,7 @@ Separate Extraction
   Engine.do_user_tags Engine.process_line
   EngineSM.tt_model EngineSM.generate EngineSM.second_filter
   RefExpand.render RefExpand.ref17 RefExpand.ref_lines EngineDomain.in_grammar17 EngineDomain.wf_assign17 EngineDomain.item_ok EngineDomain.item_wf
-  RefExpand16.render16 EngineDomain16.ref16_rows EngineDomain16.wf16_rows EngineDomain16.in_grammar16 Parse16.names_ok_shipped Parse16.names_ok_shipped_cs Parse16.shipped_ref Parse16.shipped_wf
+  RefExpand16.render16 EngineDomain16.ref16_rows EngineDomain16.wf16_rows EngineDomain16.in_grammar16 Parse16.names_ok_shipped Parse16.names_ok_shipped_cs Parse16.shipped_ref Parse16.shipped_wf Parse16.names_ok_shipped_x
   PyRender.py_proc_ref PyRender.py_proc_reads PyRender.py_proc_ok PyRender.py_proc_lines PyRender.py_init_ref PyRender.py_file_ref PyRender.py_file_wf EngineSM.paren_clean
   EngineSM.sml_print SmlRender.sml_text
   ProtoRender.rx_ref ProtoRender.tx_ref ProtoRender.rx_wf ProtoRender.tx_wf
